@@ -355,6 +355,17 @@ func (b *builder) userName(taken map[string]bool, forbidden map[string]bool) str
 		if !b.hz.AliasCapture && b.genAliases[n] {
 			continue
 		}
+		if b.prof.Regen && !b.hz.RegenAliasFeedback {
+			clash := false
+			for _, d := range b.allDeps() {
+				if d.Name == n {
+					clash = true
+				}
+			}
+			if clash {
+				continue
+			}
+		}
 		if !b.hz.CaseFoldFields {
 			clash := false
 			for o := range taken {
